@@ -103,3 +103,52 @@ Theorem C12_reachable_prefix : forall cfg q c e r i s sp,
     in_subnet s (s_base s).
 Proof. exact reachable_prefix. Qed.
 Print Assumptions C12_reachable_prefix.
+
+(* ---- the front ends (what the client actually receives) ---- *)
+
+(* API, status 200: the response in the body is the processor's response for the (generation-
+   adjusted) request, which is the one attached to and signed in the forwarded message; the
+   front end adds only the ClientConf. *)
+Theorem C12_api_preserves_view : forall cfg sg bl q remote e o,
+  api_bd cfg sg bl q remote e = Some o -> fe_status o = 200 ->
+  exists rs w q' cc,
+    fe_resp o = Some rs /\ fe_fwd o = Some w /\ fe_cc o = cc /\
+    api_request sg q = (q', cc) /\
+    register_bd cfg q' remote source_bdapi e = Ok (rs, w) /\
+    f_resp w = Some rs /\ (c_auth cfg = true -> f_signed w = Some rs).
+Proof. exact api_preserves_view. Qed.
+Print Assumptions C12_api_preserves_view.
+
+Theorem C12_api_station_applies : forall cfg sg bl q remote e o rs w sc svs sv,
+  api_bd cfg sg bl q remote e = Some o -> fe_resp o = Some rs -> fe_fwd o = Some w ->
+  station sc w = Some svs -> In sv svs ->
+  exists c, q_payload q = Some c /\
+  (exists port, r_port rs = Some port /\ sv_port sv = port mod 65536) /\
+  (sv_v6 sv = true -> r_v6 rs = Some (sv_phantom sv)) /\
+  (sv_v6 sv = false -> exists a, r_v4 rs = Some a /\ (a <> 0 -> sv_phantom sv = be4 a)) /\
+  (exists own own_port, st_new_reg sc (sv_v6 sv) (effective_params c (Some rs)) = Some (own, own_port, sv_params sv)).
+Proof. exact api_station_applies. Qed.
+Print Assumptions C12_api_station_applies.
+
+Theorem C12_dns_preserves_view : forall cfg lg q e o rs,
+  dns_req cfg lg q e = Some o -> fe_resp o = Some rs ->
+  exists w, fe_fwd o = Some w /\ register_bd cfg q None source_bddns e = Ok (rs, w) /\
+            f_resp w = Some rs /\ (c_auth cfg = true -> f_signed w = Some rs).
+Proof. exact dns_preserves_view. Qed.
+Print Assumptions C12_dns_preserves_view.
+
+Theorem C12_front_end_response_implies_published : forall o,
+  (forall cfg sg bl q remote e, api_bd cfg sg bl q remote e = Some o -> is_some (fe_resp o) = true -> is_some (fe_fwd o) = true) /\
+  (forall cfg lg q e, dns_req cfg lg q e = Some o -> is_some (fe_resp o) = true -> is_some (fe_fwd o) = true).
+Proof. exact front_end_response_implies_published. Qed.
+Print Assumptions C12_front_end_response_implies_published.
+
+(* With a configuration the constructor accepts (every override subnet's port fits in 16 bits)
+   the station's port is exactly the port the client was given. *)
+Theorem C12_station_port_exact : forall cfg q ca m e rs w c sc svs sv,
+  cfg_accepted cfg = true -> (forall d, e_dstport e = Some d -> d < 65536) ->
+  register_bd cfg q ca m e = Ok (rs, w) -> q_payload q = Some c ->
+  station sc w = Some svs -> In sv svs ->
+  r_port rs = Some (sv_port sv).
+Proof. exact station_port_exact. Qed.
+Print Assumptions C12_station_port_exact.
